@@ -442,7 +442,7 @@ func c06(c *ctx) {
 	// random UIDs (the server side of AuthFirstPacket does not look at the user database)
 	extra := 80
 	if c.thorough() {
-		extra = 600
+		extra = 4000
 	}
 	for i := 0; i < extra; i++ {
 		f := flavours[r.intn(len(flavours))]
@@ -464,7 +464,7 @@ func c06(c *ctx) {
 	// through the whole dispatcher (bypass UID, served method)
 	nd := 40
 	if c.thorough() {
-		nd = 160
+		nd = 400
 	}
 	for i := 0; i < nd; i++ {
 		f := flavours[i%len(flavours)]
